@@ -772,6 +772,12 @@ unit({
         'Write': {1: [(r'.*', T('Wr_Write', args=['objtmp']))]},
     },
     'functions': [
+        _mr('ReadMap', ordinal=1, ret_cxx='Map', calls={'ReadMapBeginning': T('Map_ReadMapBeginning_U', recv='none', args=['ref']), 'ReadVersionTag': T('Map_ReadVersionTag_U', recv='none', args=['ref', None]),
+                                                       'ReadTileGroups': T('Map_ReadTileGroups_U', recv='none', args=['ref', 'ref'])}),
+        _mr('ReadSavedGame', ordinal=1, ret_cxx='Map', calls={'SkipSaveGameHeader': T('Map_SkipSaveGameHeader_U', recv='none', args=['ref']), 'ReadMapBeginning': T('Map_ReadMapBeginning_U', recv='none', args=['ref']),
+                                                             'ReadVersionTag': T('Map_ReadVersionTag_U', recv='none', args=['ref', None]), 'ReadSavedGameUnits': T('Map_ReadSavedGameUnits_U', recv='none', args=['ref'])}),
+        _mr('ReadTileGroups', calls={'Read': {1: [(r'.*', T('Rd_Read', args=['obj']))]}, 'push_back': T('vec_TileGroup_push_back'), 'ReadTileGroup': T('Map_ReadTileGroup_U', recv='none', args=['ref'])},
+            views=[(r'\(\*map\)\.tileGroups', 'vec')]),
         _mr('SkipSaveGameHeader'), _mr('ReadMapBeginning'), _mr('ReadTilesetHeader'), _mr('ReadVersionTag'), _mr('ReadTileGroup'),
         {'file': 'src/Map/SavedGameUnits.cpp', 'qual': 'SavedGameUnits::CheckSizeOfUnit', 'cls': 'SavedGameUnits', 'cname': 'SavedGameUnits_CheckSizeOfUnit'},
         _mr('ReadSavedGameUnits', views=[(r'savedGameUnits\.objects[12]', 'vec')]),
